@@ -192,7 +192,6 @@ func (t *Target) Drain(timeout time.Duration) {
 
 	deadline := time.After(timeout)
 	toCancel := t.pendingRequestsToCancel()
-	verifYield("drain:marked", t)
 
 	// Cancel any hijacked requests immediately, as they may be long-running.
 	for _, inflight := range toCancel {
@@ -200,6 +199,7 @@ func (t *Target) Drain(timeout time.Duration) {
 			inflight.cancel(ErrorDraining)
 		}
 	}
+	verifYield("drain:marked", t)
 
 WAIT_FOR_REQUESTS_TO_COMPLETE:
 	for req := range toCancel {
